@@ -49,7 +49,8 @@ impl Property for C18 {
          aggregate_with_tweak, 64-byte signature verified by libsecp256k1 and the Python BIP-340 verifier under x(Q) with Q from the \
          reference's taproot_tweak_pubkey, rejected under x(P); tweak() keeps key package and public package consistent; honest shares \
          verify; a sampled cheater set (+ cancelling) is judged with the C04 model in all detection modes; DKG keys equal the key-path-only \
-         tweak of the summed commitments and sign plainly. One evaluation per case plus one per cheater probe. non-trivial = every case; \
+         tweak of the summed commitments and sign plainly; after a dealer / distributed share refresh the same signers still sign for the \
+         same output key. One evaluation per case plus one per cheater probe. non-trivial = every case; \
          distinct = distinct (parity triple, root class, key source, n, t, |S|) tuples"
             .into()
     }
@@ -92,6 +93,8 @@ impl Property for C18 {
         }
         v.push(("src:dkg".into(), m));
         v.push(("cheaters".into(), m));
+        v.push(("after-refresh:dealer".into(), m));
+        v.push(("after-refresh:distributed".into(), m));
         v
     }
     fn check(&self, suite: SuiteId, case: &Case, ctx: &mut Ctx) -> CheckResult {
@@ -294,6 +297,36 @@ fn check<C: Suite>(case: &Case, ctx: &mut Ctx) -> CheckResult {
                 ensure!(ctx, C::independent_verify(&pb, &msg, &b) == Some(true), "C18/plain-signature-not-bip340", "plain (untweaked) signature is not BIP-340 valid under x(group key) ({desc})");
             }
             Err(e) => ctx.fail("C18/plain-aggregate-failed", format!("plain aggregate failed: {e:?} ({desc})"))?,
+        }
+    }
+
+    // ---- the output key is fixed at key generation: after a share refresh (trusted dealer or distributed) the same
+    // participants still produce BIP-340 signatures for the SAME BIP-341 output key
+    if shape.n <= 8 {
+        let dkg_refresh = case.seed & 1 == 1;
+        let rname = if dkg_refresh { "distributed" } else { "dealer" };
+        let mut k2 = Keys { shape: keys.shape, ids: keys.ids.clone(), kps: keys.kps.clone(), pubkeys: keys.pubkeys.clone(), secret_shares: None, signing_key: None, dkg: None, source: keys.source };
+        refresh_all::<C>(&mut k2, dkg_refresh, rng.next(), "C18")?;
+        ctx.eval(&format!("{triple},{class_name},after-{rname}-refresh,{},{}", shape.n, shape.t), true);
+        ctx.label(&format!("after-refresh:{rname}"));
+        ensure!(ctx, *k2.pubkeys.verifying_key() == pvk, "C18/refresh-changes-group-key", "the group key changed in a {rname} refresh ({desc})");
+        let (nonces, comms) = commit_all::<C>(&k2.kps, &signers, rng.next());
+        let package = SigningPackage::new(comms, &msg);
+        let mut shares = BTreeMap::new();
+        for id in &signers {
+            match C::tr_sign_with_tweak(&package, &nonces[id], &k2.kps[id], root_ref).unwrap() {
+                Ok(s) => {
+                    shares.insert(*id, s);
+                }
+                Err(e) => return ctx.fail("C18/honest-sign-failed", format!("sign_with_tweak failed after a {rname} refresh: {e:?} ({desc})")),
+            }
+        }
+        match C::tr_aggregate_with_tweak(&package, &shares, &k2.pubkeys, root_ref).unwrap() {
+            Ok(s) => {
+                let b = sig_bytes::<C>(&s)?;
+                ensure!(ctx, C::independent_verify(&qkey, &msg, &b) == Some(true), "C18/not-bip340-valid-under-output-key", "after a {rname} refresh the signature is not BIP-340 valid under the BIP-341 output key fixed at key generation ({desc})");
+            }
+            Err(e) => ctx.fail("C18/honest-aggregate-failed", format!("aggregate_with_tweak failed after a {rname} refresh: {e:?} ({desc})"))?,
         }
     }
     Ok(())
